@@ -1,98 +1,114 @@
 /-
-C02 — the safety check is fail-closed.
+C02 — the safety check is fail-closed.  Part 2: byte-level acceptance characterisations.
+(Part 1, the generic gate, is `OsloProofs/Props/C02Gate.lean`.)
 
-Part 1: the generic gate (`safety_check` returns normally only for a complete, matching stream
-on which every registered check passed; a crashing check is a failure; every format registers a
-check).  Part 2: byte-level acceptance characterisations per format.
+Every theorem here is about the state an inspector is in after *any* chunking of the stream
+(`runChunks`), by composition with the chunk-independence theorems of C01.
 -/
-import OsloModel.Wrapper
-import OsloProofs.Props.C01
+import OsloProofs.Lemmas.QcowCheck
 namespace Oslo.Insp
 
-/-! ## Part 1 — the gate, for every inspector state of every format -/
+/-- **qcow_accept_iff** — for every stream and every chunking, the qcow2 safety check returns
+    normally iff the stream has 512 bytes, the magic, a zero backing-file offset, the data-file bit
+    clear, and version 2, or version 3 with no incompatible-feature bit ≥ 4 set. -/
+theorem qcow_accept_iff (s0 : Insp) (h0 : Insp.init .qcow2 = some s0) (chunks : List Bytes) :
+    safetyCheck (runChunks s0 chunks).1 = .ok ↔ QcowSafe (sliceOf chunks.flatten 0 512) := by
+  rw [run_qcow_eq_spec s0 h0]
+  unfold Insp.init at h0
+  split at h0
+  · simp at h0
+  · simp only [Option.some.injEq] at h0
+    subst h0
+    apply lemma_qcow_state_accept
+    · rfl
+    · rfl
+    · exact registered_checks.1
+    · rfl
 
-/-- **safety_ok_imp** — `safety_check()` returning normally implies the stream was captured
-    completely, matches the format, and *every* registered check passed. -/
-theorem safety_ok_imp (s : Insp) (h : safetyCheck s = .ok) :
-    s.complete = true ∧ formatMatch s = .ok true ∧ ∀ n ∈ s.checks, runCheck s n = .pass := by
-  unfold safetyCheck at h
-  split at h
-  · simp at h
-  · rename_i hc
-    split at h
-    · simp at h
-    · simp at h
-    · rename_i hm
-      dsimp only at h
-      split at h
-      · rename_i hf
-        refine ⟨by simpa using hc, hm, fun n hn => ?_⟩
-        simp only [List.isEmpty_iff, List.filter_eq_nil_iff] at hf
-        simpa using hf n hn
-      · simp at h
+/-- a qcow2 with a backing file is never accepted -/
+theorem qcow_rejects_backing (s0 : Insp) (h0 : Insp.init .qcow2 = some s0) (chunks : List Bytes)
+    (h : beNat (slice (sliceOf chunks.flatten 0 512) 8 16) ≠ 0) :
+    safetyCheck (runChunks s0 chunks).1 ≠ .ok := by
+  rw [Ne, qcow_accept_iff s0 h0]
+  rintro ⟨_, _, hb, _⟩
+  exact h hb
 
-/-- conversely it does return normally in exactly that case -/
-theorem safety_ok_iff (s : Insp) :
-    safetyCheck s = .ok ↔
-      (s.complete = true ∧ formatMatch s = .ok true ∧ ∀ n ∈ s.checks, runCheck s n = .pass) := by
-  constructor
-  · exact safety_ok_imp s
-  · rintro ⟨hc, hm, hall⟩
-    unfold safetyCheck
-    simp only [hc, Bool.not_true, Bool.false_eq_true, if_false, hm]
-    have : s.checks.filter (fun n => runCheck s n != .pass) = [] := by
-      rw [List.filter_eq_nil_iff]
-      intro n hn
-      simp [hall n hn]
-    simp [this]
+/-- a qcow2 with the external-data-file bit is never accepted -/
+theorem qcow_rejects_datafile (s0 : Insp) (h0 : Insp.init .qcow2 = some s0) (chunks : List Bytes)
+    (b : UInt8) (hb : (sliceOf chunks.flatten 0 512)[79]? = some b) (h : b.toNat &&& 4 ≠ 0) :
+    safetyCheck (runChunks s0 chunks).1 ≠ .ok := by
+  rw [Ne, qcow_accept_iff s0 h0]
+  rintro ⟨_, _, _, hd, _⟩
+  exact h (hd b hb)
 
-/-- an incomplete stream is refused (ImageFormatError), never accepted -/
-theorem incomplete_refused (s : Insp) (h : s.complete = false) : safetyCheck s = .refused := by
-  simp [safetyCheck, h]
+/-- a version-3 qcow2 with *any* incompatible-feature bit in [4, 64) set is never accepted
+    (bits numbered as in the 64-bit big-endian feature word) -/
+theorem qcow_rejects_unknown_bit (s0 : Insp) (h0 : Insp.init .qcow2 = some s0) (chunks : List Bytes)
+    (bit : Nat) (hbit : 4 ≤ bit)
+    (hv : beNat (slice (sliceOf chunks.flatten 0 512) 4 8) = 3)
+    (h : (beNat (slice (sliceOf chunks.flatten 0 512) 72 80)).testBit bit = true) :
+    safetyCheck (runChunks s0 chunks).1 ≠ .ok := by
+  rw [Ne, qcow_accept_iff s0 h0]
+  rintro ⟨_, _, _, _, hver⟩
+  rcases hver with h2 | ⟨_, hlt⟩
+  · omega
+  · have := Nat.ge_two_pow_of_testBit h
+    have : 2 ^ 4 ≤ 2 ^ bit := Nat.pow_le_pow_right (by omega) hbit
+    omega
 
-/-- a stream that does not match is refused -/
-theorem mismatch_refused (s : Insp) (hc : s.complete = true) (h : formatMatch s = .ok false) :
-    safetyCheck s = .refused := by
-  simp [safetyCheck, hc, h]
+/-- a qcow2 of any version other than 2 or 3 is never accepted -/
+theorem qcow_rejects_version (s0 : Insp) (h0 : Insp.init .qcow2 = some s0) (chunks : List Bytes)
+    (h2 : beNat (slice (sliceOf chunks.flatten 0 512) 4 8) ≠ 2)
+    (h3 : beNat (slice (sliceOf chunks.flatten 0 512) 4 8) ≠ 3) :
+    safetyCheck (runChunks s0 chunks).1 ≠ .ok := by
+  rw [Ne, qcow_accept_iff s0 h0]
+  rintro ⟨_, _, _, _, hver⟩
+  rcases hver with h | ⟨h, _⟩
+  · exact h2 h
+  · exact h3 h
 
-/-- **check_error_is_failure** — a check whose body raises anything (modelled outcome `crashed`)
-    or reports a violation makes `safety_check` fail with that check's name. -/
-theorem check_error_is_failure (s : Insp) (n : String) (hn : n ∈ s.checks)
-    (hc : s.complete = true) (hm : formatMatch s = .ok true) (hr : runCheck s n ≠ .pass) :
-    ∃ names, safetyCheck s = .failed names ∧ n ∈ names := by
-  unfold safetyCheck
-  simp only [hc, Bool.not_true, Bool.false_eq_true, if_false, hm]
-  have hmem : n ∈ s.checks.filter (fun n => runCheck s n != .pass) := by
-    rw [List.mem_filter]
-    exact ⟨hn, by simpa using hr⟩
-  split
-  · rename_i he
-    simp only [List.isEmpty_iff] at he
-    rw [he] at hmem
-    simp at hmem
-  · exact ⟨_, rfl, hmem⟩
+/-- a truncated qcow2 (fewer than 512 bytes) is never accepted -/
+theorem qcow_rejects_truncated (s0 : Insp) (h0 : Insp.init .qcow2 = some s0) (chunks : List Bytes)
+    (h : chunks.flatten.length < 512) : safetyCheck (runChunks s0 chunks).1 ≠ .ok := by
+  rw [Ne, qcow_accept_iff s0 h0]
+  rintro ⟨hl, _⟩
+  rw [lemma_sliceOf_length] at hl
+  omega
 
-/-- a check name this model does not know is never a pass -/
-theorem unknown_check_fails (s : Insp) (n : String)
-    (h : n ∉ ["null", "banned", "backing_file", "data_file", "unknown_features", "descriptor", "footer",
-              "mbr", "version"]) : runCheck s n ≠ .pass := by
-  simp only [List.mem_cons, List.not_mem_nil, or_false, not_or] at h
-  obtain ⟨h1, h2, h3, h4, h5, h6, h7, h8, h9⟩ := h
-  unfold runCheck
-  split <;> simp_all
+/-- **qed_never_accepted** — whatever the bytes and the chunking -/
+theorem qed_never_accepted (s0 : Insp) (h0 : Insp.init .qed = some s0) (chunks : List Bytes) :
+    safetyCheck (runChunks s0 chunks).1 ≠ .ok := by
+  intro h
+  have := (safety_ok_imp _ h).2.2 "banned" (by
+    rw [run_plain_eq_spec .qed rfl s0 h0]
+    unfold Insp.init at h0
+    split at h0
+    · simp at h0
+    · simp only [Option.some.injEq] at h0
+      subst h0
+      exact List.mem_of_elem_eq_true rfl)
+  simp [runCheck] at this
 
-/-- **inspector_has_check** — every format in the generated ALL_FORMATS initialises with at least
-    one registered safety check -/
-theorem inspector_has_check (f : Fmt) : ∃ s, Insp.init f = some s ∧ s.checks ≠ [] := by
-  cases f <;> exact ⟨_, rfl, by decide⟩
+/-- **null_check_accept_iff** — raw, vhd, vhdx, vdi, iso register only the null check: acceptance is
+    exactly completeness plus format match (any reachable state) -/
+theorem null_check_accept_iff (s : Insp) (h : s.checks = ["null"]) :
+    safetyCheck s = .ok ↔ (s.complete = true ∧ formatMatch s = .ok true) := by
+  rw [safety_ok_iff, h]
+  simp [runCheck]
 
-/-- the checks each format registers (over the generated tables): the obligations that break when
-    a check is dropped from the code -/
-theorem registered_checks :
-    Fmt.qcow2.initChecks = ["backing_file", "data_file", "unknown_features"] ∧
-    Fmt.vmdk.initChecks = ["descriptor"] ∧ Fmt.qed.initChecks = ["banned"] ∧
-    Fmt.gpt.initChecks = ["mbr"] ∧ Fmt.luks.initChecks = ["version"] ∧
-    Fmt.raw.initChecks = ["null"] ∧ Fmt.vhd.initChecks = ["null"] ∧ Fmt.vhdx.initChecks = ["null"] ∧
-    Fmt.vdi.initChecks = ["null"] ∧ Fmt.iso.initChecks = ["null"] := by decide
+/-- **cli_exit_zero_iff** — the command-line checker exits 0 only when detection succeeded and the
+    detected inspector's safety check returned normally -/
+theorem cli_exit_zero_iff (content : Bytes) :
+    cliExit content = 0 ↔ ∃ i, detectFileFormat content = .ok i ∧ safetyCheck i = .ok ∧
+                               (virtualSize i).isOk = true := by
+  unfold cliExit
+  cases hd : detectFileFormat content with
+  | error e => simp
+  | ok i =>
+    cases hs : safetyCheck i <;> cases hv : virtualSize i <;>
+      simp [hs, hv, Except.isOk, Except.toBool]
+
+/-! non-vacuity -/
+example : ∃ s, Insp.init .qcow2 = some s := ⟨_, rfl⟩
 
 end Oslo.Insp
